@@ -51,6 +51,9 @@ def one(d):
 def main():
     workers = int(sys.argv[1]) if len(sys.argv) > 1 else 3
     dirs = sorted(glob.glob(os.path.join(VERIF, "seeded", "*")))
+    only = [x for x in os.environ.get("REGRESS_ONLY", "").split(",") if x]
+    if only:
+        dirs = [d for d in dirs if os.path.basename(d) in only]
     res = []
     with concurrent.futures.ThreadPoolExecutor(workers) as ex:
         for o in ex.map(one, dirs):
